@@ -387,6 +387,16 @@ def unit_std_apply_tensor(prop):
     return unit
 
 
+def unit_readers(prop):
+    def unit(tier, known):
+        from contracts import readers as C
+        jobs = [("contracts.readers", "generate", (prop, label)) for label in C.labels()]
+        rm = "rtc.c17" if prop == "C17" else "rtc.c11"
+        return run_parallel("readers", jobs, to_case=getattr(C, "to_case_" + rm[-3:], None), replay_module=rm)
+    unit.__name__ = "readers"
+    return unit
+
+
 def unit_stack(prop):
     def unit(tier, known):
         from contracts import post_stack as C
@@ -401,9 +411,9 @@ UNITS = {
     "C07": [unit_supports("C07", "tri"), unit_supports("C07", "fbank")],
     "C03": [unit_si("C03", w) for w in ("chunk", "handle_skip", "preamble", "finalize", "full", "geometry", "supports")] + [unit_si_frame("C03", w) for w in ("fill", "frame", "dft", "idft")],
     "C13": [_lazy("contracts.shorten", "unit_bit_reader", "C13")],
-    "C11": [unit_read_signal("C11", "dispatch"), unit_read_signal("C11", "wds"), unit_read_signal("C11", "infer")],
+    "C11": [unit_read_signal("C11", "dispatch"), unit_read_signal("C11", "wds"), unit_read_signal("C11", "infer"), unit_readers("C11")],
     "C16": [unit_std("C16", "accumulate_vector"), unit_std("C16", "apply_vector"), unit_std("C16", "have_stats"), unit_std_tensor("C16"), unit_std_apply_tensor("C16")],
-    "C17": [unit_std("C17", "accumulate_vector"), _lazy("contracts.standardize", "unit_sanitize_accepts_saved", "C17")],
+    "C17": [unit_std("C17", "accumulate_vector"), _lazy("contracts.standardize", "unit_sanitize_accepts_saved", "C17"), unit_readers("C17")],
     "C08": [unit_alias_arg("C08")],
     "C18": [unit_pre("C18", "preemph"), unit_pre("C18", "dither")],
     "C12": [unit_copy_samples("C12"), _lazy("contracts.sphere", "unit_g711", "C12")],
